@@ -28,7 +28,76 @@ func sx(op string, args ...string) string {
 	if len(args) == 0 {
 		return op
 	}
+	if op == "select" && len(args) == 2 {
+		return selSimp(args[0], args[1])
+	}
 	return "(" + op + " " + strings.Join(args, " ") + ")"
+}
+
+// splitTop3 splits "(store A I V)" into its three arguments.
+func splitArgs(t string) []string {
+	if len(t) < 2 || t[0] != '(' {
+		return nil
+	}
+	body := t[1 : len(t)-1]
+	var out []string
+	d := 0
+	inbar := false
+	st := 0
+	for i := 0; i < len(body); i++ {
+		c := body[i]
+		if c == '|' {
+			inbar = !inbar
+		}
+		if inbar {
+			continue
+		}
+		switch c {
+		case '(':
+			d++
+		case ')':
+			d--
+		case ' ':
+			if d == 0 {
+				if i > st {
+					out = append(out, body[st:i])
+				}
+				st = i + 1
+			}
+		}
+	}
+	if st < len(body) {
+		out = append(out, body[st:])
+	}
+	return out
+}
+
+// selSimp: select over store with a syntactically identical (or provably
+// different constant) index is resolved at construction time.
+func selSimp(a, i string) string {
+	for strings.HasPrefix(a, "(store ") {
+		parts := splitArgs(a)
+		if len(parts) != 4 {
+			break
+		}
+		if parts[2] == i {
+			return parts[3]
+		}
+		ci, ok1 := isConstTerm(parts[2])
+		cj, ok2 := isConstTerm(i)
+		if ok1 && ok2 && ci.Cmp(cj) != 0 {
+			a = parts[1]
+			continue
+		}
+		break
+	}
+	if strings.HasPrefix(a, "((as const ") {
+		// ((as const (Array K V)) v)
+		if j := strings.LastIndex(a, ")) "); j > 0 && strings.HasSuffix(a, ")") {
+			return a[j+3 : len(a)-1]
+		}
+	}
+	return "(select " + a + " " + i + ")"
 }
 
 func qsym(s string) string {
@@ -193,6 +262,10 @@ type solverSpec struct {
 	args func(file string, tsec int) []string
 }
 
+var ematchSolver = solverSpec{"z3-new-ematch", func(f string, t int) []string {
+	return []string{"z3-new", fmt.Sprintf("-T:%d", t), "smt.auto_config=false", "smt.mbqi=false", f}
+}}
+
 var solvers = []solverSpec{
 	{"z3-new", func(f string, t int) []string { return []string{"z3-new", fmt.Sprintf("-T:%d", t), f} }},
 	{"z3", func(f string, t int) []string { return []string{"z3", fmt.Sprintf("-T:%d", t), f} }},
@@ -242,6 +315,15 @@ func Solve(file string, tsec int, thorough bool) SolverResult {
 	ctx := context.Background()
 	res := SolverResult{Status: "unknown"}
 	if !thorough {
+		// pure e-matching first: answers in milliseconds when the triggers suffice
+		if st, out, ms := runOne(ctx, ematchSolver, file, 2); st == "unsat" {
+			res.Status, res.Solver, res.Ms, res.Output = st, ematchSolver.name, ms, "unsat"
+			res.All = append(res.All, fmt.Sprintf("%s:%s:%dms", ematchSolver.name, st, ms))
+			_ = out
+			return res
+		} else {
+			res.All = append(res.All, fmt.Sprintf("%s:%s:%dms", ematchSolver.name, st, ms))
+		}
 		quickT := 3
 		if tsec < quickT {
 			quickT = tsec
